@@ -5,6 +5,23 @@ DEPS = ("Trusted base: rustc 1.97 nightly (type checker, const evaluator, match 
         "serde_bytes 0.11.19, cosey 0.3.2, iso7816 0.1.4 for value-level encoding/decoding. ")
 
 CLAIMS = {
+    "C03": {
+        "level": "other",
+        "technique": "static emission-order analysis: pairwise canonical key order over serialize_field/serialize_entry call sequences read from typed HIR; definite-length call-site rule; serialisable type closure",
+        "text": "For every map-emitting Serialize impl in /repo and every one of the 9 feature configurations, every pair of members is shown to be emitted in CTAP2 canonical key order "
+                "(which is equivalent to every subset being sorted, because emission is a loop-free call sequence), keys are unique, all container headers are definite-length, and the "
+                "type closure of everything a response can contain has no float/char/128-bit/unordered-map member and only impls of understood shape. Complete for the part of canonicity that /repo controls; "
+                "integer/length head minimality and COSE key order are the dependencies' and are not decided.",
+        "note": DEPS + "Not decided: shortest-form heads, single item/no trailing bytes (cbor-smol), COSE key member order (cosey).",
+    },
+    "C18": {
+        "level": "proof",
+        "technique": "static table extraction (match patterns, evaluated constants, discriminants) + row-by-row comparison with an oracle table, both directions",
+        "text": "All identifier tables are finite; each is read from the type-checked program (evaluated associated constants, enum discriminants, first-match pattern tables of the hand-written "
+                "and serde_repr-generated conversions, all 256 bytes for the TryFrom<u8> tables) and compared row by row with spec/identifiers.json in both directions, including the rejecting catch-all "
+                "that makes every other string/number invalid, in all 9 configurations.",
+        "note": DEPS + "That an out-of-range CBOR integer is rejected before reaching the u8 table is cbor-smol's range check.",
+    },
     "C11": {
         "level": "proof",
         "technique": "static table extraction from typed HIR + exhaustive finite-domain comparison with an oracle table; path-literal analysis of the command switch",
@@ -16,7 +33,7 @@ CLAIMS = {
 }
 
 PENDING = "static check not built yet in this round (design in DESIGN.md section 5); not claimed until its rule engine exists"
-NOT_APPLICABLE = {p: PENDING for p in ["C01", "C02", "C03", "C04", "C05", "C06", "C07", "C08", "C09", "C10", "C12", "C13", "C14", "C15", "C16", "C17", "C18", "C19"]}
+NOT_APPLICABLE = {p: PENDING for p in ["C01", "C02", "C04", "C05", "C06", "C07", "C08", "C09", "C10", "C12", "C13", "C14", "C15", "C16", "C17", "C18", "C19"]}
 for p in CLAIMS:
     NOT_APPLICABLE.pop(p, None)
 
